@@ -318,7 +318,7 @@ def run_mixed(pid, file_gens, dir_gens):
 # builders
 
 BUILD_INVS = {
-    "C07": ["Inv_NoPanic", "Inv_C07_Shape", "Inv_C07_RefShape", "Inv_C07_RefEq"],
+    "C07": ["Inv_NoPanic", "Inv_C07_Shape", "Inv_C07_RefShape", "Inv_C07_RefEq", "Inv_C07_RefSame"],
     "C10": ["Inv_NoPanic", "Inv_C10_Same"],
     "C11": ["Inv_NoPanic", "Inv_C11_Tsize", "Inv_C11_Returned", "Inv_C11_FileSizes", "Inv_C11_Big"],
     "C16": ["Inv_NoPanic", "Inv_C16_NoDangling", "Inv_C16_CleanFailure", "Inv_C16_LinkOnlyWhenComplete", "Inv_C16_Big"],
@@ -644,29 +644,32 @@ def run_C17(ctx):
     # TraceSched validates every recorded segment against the same operators.
     sched_traces = []
     SIM = 4000 if q else 60000          # behaviours per simulation run (divided over TLC's workers)
-    runs = [("small", 2, None), ("small", 3, SIM), ("nested", 2, SIM), ("wide", 2, SIM)]
+    # (table, readers, simulated behaviours or None = every behaviour, readers also park inside the loads)
+    runs = [("small", 2, None, False), ("small", 3, SIM, False), ("nested", 2, SIM, False), ("wide", 2, SIM, False),
+            ("small", 2, SIM, True), ("nested", 2, SIM, True)]
     if not q:
-        runs += [("nested", 3, SIM), ("wide", 3, SIM)]
-    for cfgname, ng, sim in runs:
+        runs += [("nested", 3, SIM, False), ("wide", 3, SIM, False), ("small", 3, SIM, True), ("wide", 2, SIM, True)]
+    for cfgname, ng, sim, lg in runs:
         tab = "sched_table_%s.ndjson" % cfgname
         vlib.vh(b, ["sched-table", "-cfg", cfgname, "-out", vlib.os.path.join(ctx.specdir, tab)])
-        cfg = ("SPECIFICATION Spec\nCONSTANTS\n  TableFile = \"%s\"\n  NG = %d\nINVARIANTS Inv_C17_SchedAnswers Inv_C17_SchedMemo "
-               "Inv_X_WarmIsQuiet Export\n%sCHECK_DEADLOCK FALSE\n" % (tab, ng, "" if sim else "PROPERTIES Terminates\n"))
+        cfg = ("SPECIFICATION Spec\nCONSTANTS\n  TableFile = \"%s\"\n  NG = %d\n  LG = %s\nINVARIANTS Inv_C17_SchedAnswers Inv_C17_SchedMemo "
+               "Inv_C12_SchedNoCacheOfMissing Inv_X_LoadGatesRefine Inv_X_WarmIsQuiet Export\n%sCHECK_DEADLOCK FALSE\n"
+               % (tab, ng, "TRUE" if lg else "FALSE", "" if sim else "PROPERTIES Terminates\n"))
         W = 4
-        r = vlib.model_check(ctx, "HamtSched", cfg, name="HamtSched_%s_g%d" % (cfgname, ng), want_cases=True, workers=W if sim else None,
+        r = vlib.model_check(ctx, "HamtSched", cfg, name="HamtSched_%s_g%d%s" % (cfgname, ng, "_lg" if lg else ""), want_cases=True, workers=W if sim else None,
                              simulate=(max(1, sim // W), 96, ctx.seed) if sim else None)
         if not r["cases"]:
             raise Broken("TLC exported no schedules for %s" % cfgname)
-        casefile = ctx.path("sched_%s_g%d.jsonl" % (cfgname, ng))
+        casefile = ctx.path("sched_%s_g%d%s.jsonl" % (cfgname, ng, "_lg" if lg else ""))
         with open(casefile, "w") as f:
             for k, c in enumerate(r["cases"]):
                 d = json.loads(c)
-                d["fam"], d["cfg"], d["id"] = "sched", cfgname, "sched-%s-g%d-%d" % (cfgname, ng, k)
+                d["fam"], d["cfg"], d["id"] = "sched", cfgname, "sched-%s-g%d%s-%d" % (cfgname, ng, "-lg" if lg else "", k)
                 f.write(json.dumps(d) + "\n")
         ctx.extra["tlc_schedules_exported"] = ctx.extra.get("tlc_schedules_exported", 0) + len(r["cases"])
-        ctx.extra.setdefault("tlc_schedule_runs", []).append({"table": cfgname, "readers": ng, "behaviours": len(r["cases"]),
+        ctx.extra.setdefault("tlc_schedule_runs", []).append({"table": cfgname, "readers": ng, "load_gates": lg, "behaviours": len(r["cases"]),
                                                                "mode": "exhaustive" if not sim else "simulation"})
-        sched_traces.append(gen(ctx, b, "sched_%s_g%d" % (cfgname, ng), ["run-cases", "-cases", casefile]))
+        sched_traces.append(gen(ctx, b, "sched_%s_g%d%s" % (cfgname, ng, "_lg" if lg else ""), ["run-cases", "-cases", casefile]))
     decide(ctx, b, "TraceSched", ["Inv_NoPanic", "Inv_C17_SchedComplete", "Inv_C17_SchedAnswer"], sched_traces, extras=["Inv_X_SchedConform"])
 
 
@@ -883,7 +886,7 @@ PLANS = {
              "the FileRead machine to depth 2 (thorough: 3) on single-block, wrapped and multi-level files and checks the "
              "io.ReadSeeker invariants and reader independence on the model; each history is replayed on real readers and "
              "the recorded trace validated by TLC (Inv_C04_*), plus long random histories."),
-    "C05": P(run_mixed("C05", [F_RANGE, F_SEQ, F_WRITERS, F_RANGE_MIXED] + f_variants("range", 5, 9), [("sets", FAN_T, FAN_T), ("coldlookups", FAN_T, FAN_T), ("faults", "8", "8,16,256"), ("boxo", FAN_T, FAN_T)]),
+    "C05": P(run_mixed("C05", [F_RANGE, F_SEQ, F_WRITERS, F_RANGE_MIXED] + f_variants("range", 5, 9) + f_variants("range", 5, 9, ["own-mtime"]), [("sets", FAN_T, FAN_T), ("coldlookups", FAN_T, FAN_T), ("faults", "8", "8,16,256"), ("boxo", FAN_T, FAN_T)]),
              "TLC proves on FileRead/HamtRead that the lazy algorithms only load blocks whose span intersects the requested "
              "range / shards on the name's digit path; on the real code every range [a,b) of every enumerated file shape and "
              "every member and non-member lookup of every enumerated HAMT is run, and each recorded load is checked by TLC "
@@ -895,7 +898,7 @@ PLANS = {
              "stored structure is checked by TLC to be Canon(entries); every TLC history is applied to a real boxo shard and "
              "the result read back with this library (lookups, iteration, length) and validated against the model's set.",
              rule=RULE_DIR, technique=TECH_DIR, note=NOTE_DIR + "; CID equality itself is compared in Go"),
-    "C12": P(run_mixed("C12", [F_FAULT, F_PRELOAD], [("faults", "8,16,128,1024", FAN_T), ("preload", "8,64", FAN_T)]),
+    "C12": P(run_mixed("C12", [F_FAULT, F_PRELOAD], [("faults", "8,16,128,1024", FAN_T), ("preload", "8,32,64", FAN_T)]),
              "exhaustive single-block unavailability and k-th-load failure (both error kinds) on every enumerated file "
              "shape and HAMT; TLC validates that reads return exactly the bytes before the missing span and then the load "
              "error, never EOF; that lookups crossing a missing shard report the error, not not-found; that iteration "
@@ -911,7 +914,7 @@ PLANS = {
              "length and preload of every enumerated HAMT (own and reference-written) is validated by TLC to be a prefix of "
              "- and on completion equal to - the pre-order of the walker's block/shard table (Inv_C20_*).",
              rule=RULE_MIX, technique=TECH_MIX),
-    "C06": P(run_mixed("C06", [F_PRELOAD, F_PRELOAD_NOBS, F_PRELOAD_MIXED, F_PRELOAD_MTIME, F_PRELOAD_INLINE] + f_variants("preload", 6, 12, VARIANT_WRITERS + ["own-shortfs", "own-rawroot"]), [("preload", "8,16,64,512", FAN_T), ("preload-es", "8,256", FAN_T)]),
+    "C06": P(run_mixed("C06", [F_PRELOAD, F_PRELOAD_NOBS, F_PRELOAD_MIXED, F_PRELOAD_MTIME, F_PRELOAD_INLINE] + f_variants("preload", 6, 12, VARIANT_WRITERS + ["own-shortfs", "own-rawroot"]), [("preload", FAN_T, FAN_T), ("preload-es", "8,256", FAN_T)]),
              "for every enumerated file shape and HAMT: the preload reifier is run with no fault and with each single block "
              "of the entity unavailable; TLC validates loads = all blocks of the entity, none of the entries' blocks, and an "
              "error whenever a block is missing (Inv_C06_*).", rule=RULE_MIX, technique=TECH_MIX),
